@@ -471,7 +471,9 @@ fn native_case(n: u32, seed: u64) -> Option<(String, String, Value)> {
     let ranges = std::sync::Arc::new(scen.build_ranges());
     let flop = scen.flop;
     let cap = 64 + 8 * scen.product().max(1) * (NPOS as u64 + 2);
-    let (u, complete) = drain(&flop, &ranges, &[], cap);
+    // the single-thread reference uses its own copy: the shared range objects are first
+    // touched by the concurrent workers, as in the example
+    let (u, complete) = drain(&flop, &scen.build_ranges(), &[], cap);
     if !complete || !matches!(u.last(), Some(Out::End)) {
         return None;
     }
